@@ -196,6 +196,34 @@ def runner(rep, tier, seed, replay):
         if got not in exp_alts:
             rep.violation("special-args", "script arguments %s: markers %s, expected %s (stderr %s)" % (a, got, exp_alts[0], res.get("stderr", "")[-150:]),
                           {"special_args": a, "got": got}, {"special_args": True, "chars": sorted(set("".join(a)) - set("abcdqrxyHOMEklash"))})
+    # positional parameters in the word list of a `for` head (a separate, token-based expander: expand_args_in_tokens)
+    fl_cases = []
+    heads = [("$1 $2", ["{1}"] + "{2}".split(), None), ("$@", None, "all"), ("${2} $1 $7", None, "21"), ('"$2"', None, "q2"), ("$0", None, "0"),
+             ("p$1 ${1}s", None, "affix"), ("$2 lit $1", None, "mixed")]
+
+    def fl_expect(kind, fr):
+        a1, a2 = fr[1], fr[2]
+        return {"all": [a1] + a2.split(), "21": a2.split() + [a1], "q2": [a2], "0": [fr[0]], "affix": ["p" + a1, a1 + "s"],
+                "mixed": a2.split() + ["lit", a1], None: [a1] + a2.split()}[kind]
+    for hd, _, kind in heads:
+        loop = "for x in %s\n    vmk FL 0 \"$x\"\ndone\n" % hd
+        fl_cases.append(("script", hd, loop, {}, ["@PATH@"] + SCRIPT_ARGS, kind))
+        fl_cases.append(("function", hd, "function ff() {\n%s}\nff a1 \"b c\"\n" % "".join("    " + l + "\n" for l in loop.splitlines()), {}, ["ff", "a1", "b c"], kind))
+        fl_cases.append(("source", hd, "source lib.sh s1 \"t u\"\n", {"lib.sh": loop}, ["lib.sh", "s1", "t u"], kind))
+    fres = run_cases([{"entry": "script", "text": t, "files": f, "args": SCRIPT_ARGS, "timeout": 15} for (_, _, t, f, _, _) in fl_cases])
+    for (where, hd, t, f, fr, kind), res in zip(fl_cases, fres):
+        rep.cov["evaluations"] += 1
+        got = [r.get("argv") for r in res.get("log", []) if r.get("h") == "mk" and r.get("id") == "FL"]
+        exp = [[w] for w in fl_expect(kind, fr)]
+        if kind == "0":
+            ok = len(got) == 1 and len(got[0]) == 1 and (got[0][0] == fr[0] or (fr[0] in ("@PATH@", "lib.sh") and got[0][0].endswith((".sh", "/script")) ) )
+            if fr[0] == "@PATH@":
+                ok = len(got) == 1 and got[0] and got[0][0] not in ("cicada", "A1") and "/" in got[0][0]
+        else:
+            ok = got == exp
+        if not ok:
+            rep.violation("for-list/" + where, "`for x in %s` in a %s: loop items %s, expected %s (stderr %s)\n%s" % (hd, where, got, exp, res.get("stderr", "")[-200:], t),
+                          {"for_list": hd, "where": where, "text": t, "files": f}, {"for_list": hd, "where": where})
     # persistence of what a sourced file / a function definition does
     pres = run_cases([{"entry": "script", "text": t, "files": f, "timeout": 15} for (_, t, f, _) in PERSIST])
     for (name, t, f, exp), res in zip(PERSIST, pres):
